@@ -41,7 +41,12 @@ type c03cfgB struct {
 	R0, R1 *c03B
 	Shared map[string]*c03B
 }
-type c03cfgC struct{ R0, R1 *c03C }
+type c03cfgC struct {
+	R0, R1 *c03C
+	// a slice and (possibly) a proper prefix of it, or the same slice again
+	All []*c03C
+	Pre []*c03C
+}
 type c03cfgD struct{ R0, R1 *c03D }
 
 // pick chooses nil or one of the nodes for a reference slot.
@@ -171,6 +176,16 @@ func c03famC(n int) {
 		nd.A[0] = get("n" + strconv.Itoa(i) + "A0")
 	}
 	def := &c03cfgC{R0: nodes[0], R1: get("R1")}
+	def.All = append([]*c03C{}, nodes...)
+	def.All = append(def.All, nodes[0])
+	switch zzverif.Choose("pre", 4) {
+	case 1:
+		def.Pre = def.All[:1]
+	case 2:
+		def.Pre = def.All[:0]
+	case 3:
+		def.Pre = def.All
+	}
 	c03check("family C (slices and arrays)", def, func(c *c03cfgC) []reflect.Value {
 		out := []reflect.Value{reflect.ValueOf(c.R0), reflect.ValueOf(c.R1)}
 		for _, r := range []*c03C{c.R0, c.R1} {
